@@ -235,7 +235,12 @@ def randoms(chk, drv, f):
         if HANGS[0] > MAX_HANGS:
             break
         mo = model_out(mo)
-        out = guarded(f, (m1, m2, s), budget=20.0)
+        # the numbers as a caller may hold them: Python ints or numpy integers (an element of an array of process counts, the product
+        # of a topology); every fifth case the latter
+        args_ = (np.int64(m1), np.int64(m2), np.int64(s)) if it % 5 == 3 else (m1, m2, s)
+        out = guarded(f, args_, budget=20.0)
+        if out[0] == 'grid':
+            out = ('grid', tuple(int(x) for x in out[1]))
         dv = divisors(s)
         V = valid_set(m1, m2, s, dv)
         case = {'max_proc1': m1, 'max_proc2': m2, 'mpi_size': s}
@@ -292,7 +297,8 @@ def setups(chk, drv, g):
 
     def body(npts, lay, deg, plot=False, draw=0):
         comm = MPI.COMM_WORLD
-        kw = {'plotThread': True, 'drawRank': draw} if plot else {}
+        # the flag as a caller may spell it: True, 1, a numpy bool (an element of an array of options)
+        kw = {'plotThread': [True, 1, np.True_][sum(npts) % 3], 'drawRank': draw} if plot else {}
         grid, consts, t = setupCylindricalGrid(layout=lay, npts=list(npts), comm=comm, splineDegrees=list(deg), **kw)
         lm = grid._layout_manager
         return {'nprocs': [int(x) for x in lm.nProcs],
@@ -440,7 +446,7 @@ def restart_setups(chk, drv, g):
                 def body():
                     world = MPI.COMM_WORLD
                     comm = world if groups == 1 else world.Split(world.Get_rank() // size, world.Get_rank())
-                    kw = {'plotThread': True, 'drawRank': draw} if plot else {}
+                    kw = {'plotThread': [True, 1, np.True_][(it // 3) % 3], 'drawRank': draw} if plot else {}
                     grid, consts, t = setupFromFile(folder, comm=comm, allocateSaveMemory=True, **kw)
                     lm = grid._layout_manager
                     return {'nprocs': [int(x) for x in lm.nProcs], 'shapes': {n: [int(x) for x in lm.getLayout(n).shape] for n in NAMES},
